@@ -398,7 +398,12 @@ func EntVariants(levels []zapcore.Level) []Ent {
 		out = append(out,
 			Ent{Level: l, Time: PreEpochTime, Name: "n", Caller: HostileCaller, Message: "pre-epoch"},
 			Ent{Level: l, Time: PreEpochTime, Message: ""},
-			Ent{Level: l, Time: NormalTime, Name: "n", Caller: HostileCaller, Stack: "s", Message: ""})
+			Ent{Level: l, Time: NormalTime, Name: "n", Caller: HostileCaller, Stack: "s", Message: ""},
+			// instants before year 1 are not the zero Time: the entry carries a time
+			Ent{Level: l, Time: time.Time{}.Add(-1), Name: "n", Message: "one nanosecond before the zero Time"},
+			Ent{Level: l, Time: time.Date(0, 6, 1, 12, 0, 0, 0, time.UTC), Caller: HostileCaller, Message: "year 0"},
+			// a caller that is not Defined carries no caller and no function, whatever its other fields hold
+			Ent{Level: l, Time: NormalTime, Name: "n", Caller: zapcore.EntryCaller{Defined: false, File: "/left/over.go", Line: 3, Function: "left.Over"}, Message: "undefined caller with left-over strings"})
 	}
 	return out
 }
